@@ -109,7 +109,7 @@ def exact_args(m, e, other, tab):
     if m == "v":
         return a if a >= 1 else None
     if m == "&":
-        return a
+        return max(a - 1, 0)     # the register is pushed first and is one of the element's arguments
     if m == "~":
         return 1 if a == 1 else 0
     if m == "ß":
